@@ -35,17 +35,15 @@ def offsets(p, period=100):
 
 # --------------------------------------------------------------------------- fast TLA+ -> JSON
 
-_rx = [(re.compile(r"\["), "{"), (re.compile(r"\]"), "}"), (re.compile(r"<<"), "["), (re.compile(r">>"), "]"),
-       (re.compile(r"([A-Za-z_][A-Za-z0-9_]*) \|->"), r'"\1":'), (re.compile(r"\("), "{"), (re.compile(r"\)"), "}"),
-       (re.compile(r"(-?\d+) :>"), r'"\1":'), (re.compile(r" @@ "), ", "), (re.compile(r"\bTRUE\b"), "true"),
-       (re.compile(r"\bFALSE\b"), "false")]
+_rx_key = re.compile(r"([A-Za-z_][A-Za-z0-9_]*) \|->")
+_rx_dom = re.compile(r"(-?\d+) :>")
 
 
 def tla2json(s):
     """Values made of integers, strings, booleans, sequences, records and int-keyed functions (no sets)."""
-    t = s
-    for rx, rep in _rx:
-        t = rx.sub(rep, t)
+    t = s.replace("[", "{").replace("]", "}").replace("<<", "[").replace(">>", "]").replace("(", "{").replace(")", "}")
+    t = t.replace(" @@ ", ", ").replace("TRUE", "true").replace("FALSE", "false")
+    t = _rx_dom.sub(r'"\1":', _rx_key.sub(r'"\1":', t))
     try:
         return json.loads(t)
     except ValueError:
@@ -230,20 +228,34 @@ def run_bpsnap(c):
             raise vlib.Infra("simulation produced %d behaviours, %d requested" % (len(sbehs), nsim))
 
         nshards = 12 if thorough else 8
-        for tag, p, rank, behs in (("gen", gp, grank, gbehs), ("sim", sp, srank, sbehs)):
-            inpath = os.path.join(c.work, "bps_%s_in.json" % tag)
-            json.dump({"p": p, "offsets": offsets(p), "genesis": GENESIS, "rankings": rank, "default_count": DEFAULT_COUNT,
-                       "ncand": NCAND, "behs": behs}, open(inpath, "w"))
-            t0 = time.time()
-            outs = [os.path.join(c.work, "bps_%s_out%d.json" % (tag, i)) for i in range(nshards)]
-            rs = vlib.go_test_sharded(PKG, RUN, nshards, lambda i: {"VERIF_IN": inpath, "VERIF_OUT": outs[i], "VERIF_SEED": c.seed,
-                                                                   "VERIF_TIER": c.tier}, timeout=2400)
-            for i, (rc, output) in enumerate(rs):
-                r = c.absorb_go(outs[i], output)
-                if rc != 0 and not r.get("violations"):
-                    raise vlib.Infra("BpSnapshots harness (%s, shard %d) failed:\n%s" % (tag, i, output[-3000:]))
-            c.notes.append("BpSnapshots %s: %d behaviours, %d steps replayed in %.0fs (%d processes)" % (
-                tag, len(behs), sum(len(b["steps"]) for b in behs), time.time() - t0, nshards))
+        groups = [{"tag": tag, "p": p, "offsets": offsets(p), "genesis": GENESIS, "rankings": rank, "default_count": DEFAULT_COUNT,
+                   "ncand": NCAND, "behs": behs} for tag, p, rank, behs in (("gen", gp, grank, gbehs), ("sim", sp, srank, sbehs))]
+        inpath = os.path.join(c.work, "bps_in.json")
+        json.dump({"groups": groups}, open(inpath, "w"))
+        t0 = time.time()
+        outs = [os.path.join(c.work, "bps_out%d.json" % i) for i in range(nshards)]
+        rs = vlib.go_test_sharded(PKG, RUN, nshards, lambda i: {"VERIF_IN": inpath, "VERIF_OUT": outs[i], "VERIF_SEED": c.seed,
+                                                               "VERIF_TIER": c.tier}, timeout=2400)
+        # one violation per signature over all shards: the one with the shortest list of actions
+        best, results = {}, []
+        for i, (rc, output) in enumerate(rs):
+            if not os.path.exists(outs[i]):
+                raise vlib.Infra("BpSnapshots harness (shard %d) wrote no result:\n%s" % (i, output[-3000:]))
+            r = json.load(open(outs[i]))
+            for v in r.get("violations") or []:
+                k = json.dumps(v.get("sig"), sort_keys=True)
+                n = len((v.get("replay") or {}).get("actions") or [])
+                if k not in best or n < best[k][0]:
+                    best[k] = (n, v)
+            if rc != 0 and not r.get("violations"):
+                raise vlib.Infra("BpSnapshots harness (shard %d) failed:\n%s" % (i, output[-3000:]))
+            results.append(r)
+        for i, r in enumerate(results):
+            r["violations"] = [v for _k, (_n, v) in sorted(best.items())] if i == 0 else []
+            json.dump(r, open(outs[i], "w"))
+            c.absorb_go(outs[i], "")
+        c.notes.append("BpSnapshots: %d + %d behaviours, %d steps replayed in %.0fs (%d processes, build included)" % (
+            len(gbehs), len(sbehs), sum(len(b["steps"]) for b in gbehs + sbehs), time.time() - t0, nshards))
     finally:
         for t in th:
             t.join()
